@@ -149,6 +149,11 @@ fn gen_ops(dna: &mut Dna) -> Vec<CodecOp> {
     ops
 }
 
+pub fn doc_from_dna(dna_bytes: &[u8]) -> Value {
+    let mut dna = Dna::new(dna_bytes);
+    ops_doc(&gen_ops(&mut dna))
+}
+
 fn eval_dna(dna_bytes: &[u8], ctx: &mut Ctx) -> Result<(), (Failure, Value)> {
     let mut dna = Dna::new(dna_bytes);
     let ops = gen_ops(&mut dna);
